@@ -155,6 +155,12 @@ func c20(r *Report) {
 		}
 	})
 
+	r.Guard("C20.R1", "the arithmetic of byte ranges, evaluated on a grid of positions around every boundary", func() {
+		for _, m := range mods {
+			rangeArithmeticRules(r, m.name, m.f)
+		}
+	})
+
 	r.Guard("C20.R2", "Content-Length always describes the body that is attached", func() {
 		for _, m := range mods {
 			f := m.f
@@ -427,6 +433,41 @@ func c20(r *Report) {
 						}
 					}
 				}
+			}
+			// the assembled multipart body is what the answer carries: from the writer's Close
+			// every path attaches its buffer as the body and announces multipart/byteranges
+			// with the writer's boundary; every part is introduced by its own Content-Type and
+			// Content-Range
+			for _, c := range plainCalls(f, "(*mime/multipart.Writer).Close") {
+				isMPBody := func(i ssa.Instruction) bool {
+					return isBodyStore(i) && anyIn(w.backSlice(i.(*ssa.Store).Val, flowOpt{Through: map[string]bool{"io/ioutil.NopCloser": true, "io.NopCloser": true, "bytes.NewReader": true}}), func(v ssa.Value) bool { return isCallValue(v, "(*bytes.Buffer).Bytes") })
+				}
+				isMPType := func(i ssa.Instruction) bool {
+					hc, y := isCall(i, "(net/http.Header).Set")
+					if !y {
+						return false
+					}
+					if k, isK := constString(hc.Common().Args[1]); !isK || k != "Content-Type" {
+						return false
+					}
+					return anyIn(w.backSlice(hc.Common().Args[2], flowOpt{BinOps: true, Through: map[string]bool{"fmt.Sprintf": true}, CallArg: true}), func(v ssa.Value) bool {
+						sfmt, isK := constString(v)
+						return isK && strings.HasPrefix(sfmt, "multipart/byteranges; boundary=")
+					})
+				}
+				pb := g.PathTo([]ssa.Instruction{c}, false, isMPBody, isReturn)
+				pt := g.PathTo([]ssa.Instruction{c}, false, isMPType, isReturn)
+				r.Decide("path", fmt.Sprintf("(*M/%s.Modifier).ModifyResponse: the multipart buffer becomes the body of a multi-range answer", m.name), pb == nil, "a Body store fed by the buffer's Bytes() lies on every path from Close to the return", "a multi-range request is answered 206 with the original body (or none): the assembled parts are dropped", c.Pos())
+				r.Decide("path", fmt.Sprintf("(*M/%s.Modifier).ModifyResponse: a multi-range answer is announced as multipart/byteranges", m.name), pt == nil, "Content-Type: multipart/byteranges; boundary=... is set on every path from Close to the return", "the multipart body goes out under the file's own Content-Type: the client cannot take the parts apart", c.Pos())
+			}
+			for _, cp := range plainCalls(f, "(*mime/multipart.Writer).CreatePart") {
+				have := map[string]bool{}
+				for _, hc := range plainCalls(f, "(net/textproto.MIMEHeader).Set") {
+					if k, isK := constString(hc.Call.Args[1]); isK && g.Before(hc, cp) && inLoop(hc.Block()) {
+						have[k] = true
+					}
+				}
+				r.Decide("path", fmt.Sprintf("(*M/%s.Modifier).ModifyResponse: every part is introduced by Content-Type and Content-Range", m.name), have["Content-Type"] && have["Content-Range"], "both header lines are set in the loop before CreatePart", "a part of a multi-range answer lacks its Content-Range (or Content-Type): the client cannot tell which octets it holds", cp.Pos())
 			}
 			r.Decide("path", fmt.Sprintf("(*M/%s.Modifier).ModifyResponse: the multipart writer is closed before its buffer becomes the body", m.name), okClose, "mpw.Close() precedes the body assignment", "the closing boundary is missing from the multipart body", f.Pos())
 		}
